@@ -90,6 +90,24 @@ def _column(lc, fn):
     return None
 
 
+def _parallel_keys_and_values(fi, P, B, fn) -> bool:
+    """P[i] is the key and B[i] the value of the same entry of one sorted table: either the two are columns 0 and 1 of
+    the same list of (key, value) pairs, or P is `sorted(D)` (the sorted keys of a mapping D) and B is `[D[k] for k in
+    P]`.  Locals and tuple-returning module helpers are looked through."""
+    (pe, pf), (be, bf) = _origin(fi, P, fn), _origin(fi, B, fn)
+    if pf is not bf:
+        return False
+    cp, cb = _column(pe, pf), _column(be, bf)
+    if cp is not None and cb is not None and cp[0] == cb[0] and (cp[1], cb[1]) == (0, 1):
+        return True
+    if isinstance(be, ast.ListComp) and len(be.generators) == 1 and not be.generators[0].ifs and isinstance(be.generators[0].target, ast.Name):
+        g = be.generators[0]
+        if isinstance(be.elt, ast.Subscript) and norm(be.elt.slice) == g.target.id and shape.rnorm(g.iter, pf) == shape.rnorm(pe, pf):
+            D = norm(be.elt.value)
+            return any(shape.match(pt, pe) is not None for pt in (f"sorted({D})", f"sorted({D}.keys())"))
+    return False
+
+
 def to_compact_rule(ck, ix):
     """to_compact: unchanged for unitless/zero/NaN/inf, prefix chosen from the magnitude in the unprefixed unit (nominal
     value for uncertain magnitudes), only one unit renamed with the prefix."""
@@ -176,9 +194,7 @@ def to_compact_rule(ck, ix):
             beyond = lambda at: shape.match(f"{I} >= len({B})", at) is not None or shape.match(f"len({B}) <= {I}", at) is not None
             within = lambda at: shape.match(f"{I} < len({B})", at) is not None or shape.match(f"len({B}) > {I}", at) is not None
             clamp = any(isinstance(x, ast.Assign) and norm(x.targets[0]) == I and norm(x.value) == "-1" and (shape.holds_at(x, fn, beyond, True) or shape.holds_at(x, fn, within, False)) for x in walk_local(fn))
-            (pe, pf), (be, bf) = _origin(f, P, fn), _origin(f, sub.value, fn)
-            cp, cb = _column(pe, pf), _column(be, bf)
-            same = pf is bf and cp is not None and cb is not None and cp[0] == cb[0] and (cp[1], cb[1]) == (0, 1)
+            same = _parallel_keys_and_values(f, P, sub.value, fn)
             used = prefix is None or norm(prefix) == norm(sub)
             okl = okl or (clamp and same and used and "call:log10" in defs.roots(power))
     ck.check(okl, "G-PROV", "to_compact|prefix-lookup", f.loc(), "prefix looked up by bisect, clamped", "the prefix lookup by bisect/clamp changed")
@@ -233,7 +249,7 @@ def _exponent_roles(fi):
         if isinstance(e, ast.Subscript) and isinstance(e.value, ast.Name) and e.value.id in tails and not isinstance(e.slice, ast.Slice):
             return tails[e.value.id], "tail"
         return None
-    return role, unit_var
+    return role, unit_var, set(heads.values())
 
 
 def preferred_simple_match_rule(ck, ix):
@@ -242,15 +258,15 @@ def preferred_simple_match_rule(ck, ix):
     a product of one exponent of the quantity and one of the unit, one taken from the head and one from the tail; a
     power (or any other operator) accepts non-proportional exponents and the returned unit has the wrong dimension."""
     m = ix.module(QTO)
-    # by role: the simple-match shortcut is the function defined inside _get_preferred that is called without arguments
-    # and whose answer _get_preferred hands back (`s = <it>(); if s is not None: return s`), whatever it is called
+    # by role: the simple-match shortcut is the piece of _get_preferred that destructures the dimension exponents of the
+    # quantity and of a preferred unit into head and tail: _get_preferred itself (a private helper spliced into it) or a
+    # function defined inside it, whatever it is called
     gp = ix.func(QTO, "_get_preferred")
-    shortcut = {norm(v.func) for v in (shape.resolve(r.value, gp.node) for r in shape.returns_of(gp.node)) if isinstance(v, ast.Call) and isinstance(v.func, ast.Name) and not v.args and not v.keywords}
-    fs = [g for g in m.all_functions if g.parent is gp and g.name in shortcut]
+    fs = [g for g in [gp] + [g for g in m.all_functions if g.parent is gp] if _exponent_roles(g)[2] >= {"s", "p"}]
     ck.floor("G-PROV", len(fs), 1, "find_simple")
     for f in fs:
         ck.analysed(f)
-        role, unit_var = _exponent_roles(f)
+        role, unit_var, _owners = _exponent_roles(f)
         mixes = lambda e: len({role(x)[0] for x in ast.walk(e) if role(x)}) == 2      # involves an exponent of both
         cmps = [c for c in walk_local(f.node) if isinstance(c, ast.Compare) and len(c.ops) == 1 and isinstance(c.ops[0], ast.Eq) and mixes(c) and all(any(role(x) for x in ast.walk(sd)) for sd in (c.left, c.comparators[0]))]
         ck.check(len(cmps) == 1, "G-PROV", "find_simple|proportionality-test-present", f.loc(), "one proportionality test", f"{len(cmps)} exponent proportionality tests found")
@@ -455,7 +471,12 @@ def run(ck, ix, tier):
     keysg = [c for c in walk_local(f.node) if isinstance(c, ast.Compare) and sorted([norm(c.left), norm(c.comparators[0])]) == sorted([f"{d1}.keys()", f"{d2}.keys()"])]
     ck.check(len(keysg) == 1, "G-PROV", "_get_dimensionality_ratio|same-dimension-set-required", f.loc(), "None when the dimension sets differ", "the test that both units involve the same set of dimensions is gone")
     rets = shape.returns_of(f.node)
-    ck.check(any(isinstance(r.value, ast.Constant) and r.value.value is None for r in rets) and any(isinstance(r.value, ast.Name) for r in rets), "G-PROV", "_get_dimensionality_ratio|none-or-common-ratio", f.loc(), "returns None or the common ratio", "the function no longer answers None / the common ratio")
+    # every value the function can return (a conditional expression counts branch by branch): None is among them, and so
+    # is a value computed from the exponent division
+    from .C03 import _cases
+    outcomes = [v for r in rets for v, _cond in _cases(r.value, f.node)]
+    is_ratio = lambda v: not isinstance(v, ast.Constant) and any(isinstance(x, ast.BinOp) and isinstance(x.op, ast.Div) for x in ast.walk(shape.resolve(v, f.node)))
+    ck.check(any(isinstance(v, ast.Constant) and v.value is None for v in outcomes) and any(is_ratio(v) for v in outcomes), "G-PROV", "_get_dimensionality_ratio|none-or-common-ratio", f.loc(), "returns None or the common ratio", "the function no longer answers None / the common ratio")
     from .C16 import inplace_primitives_rule
     inplace_primitives_rule(ck, ix)  # only in-place forms may rescale/rebind their target
     from .. import memo as _memo
